@@ -271,7 +271,19 @@ func ruleFIELD1(c *Ctx) {
 		f = outer
 		info = f.Info()
 		ambiguous, unknownGuard := false, false
-		for _, call := range findAll[*ast.CallExpr](f.Body()) {
+		// the closure and the private helpers it was split into
+		type callIn struct {
+			g    *FuncInfo
+			call *ast.CallExpr
+		}
+		var scopeCalls []callIn
+		for _, g := range p.CalleeClosure(f, 2) {
+			for _, call := range findAll[*ast.CallExpr](g.Body()) {
+				scopeCalls = append(scopeCalls, callIn{g, call})
+			}
+		}
+		for _, sc := range scopeCalls {
+			f, info, call := sc.g, sc.g.Info(), sc.call
 			for _, a := range call.Args {
 				o := IdentObj(info, a)
 				if o == nil {
